@@ -13,6 +13,7 @@ theorem display_eq (fmt : F → String) (s : FastStochastic F) :
 
 theorem default_eq : (default_ : Option (FastStochastic F)) = some (fresh 14) := by
   unfold default_
+  try simp only [gen_helper]
   rw [new_eq]
   simp [unwrap, isizeMax]
 
